@@ -655,6 +655,7 @@ def correspond(ctx, model):
         run_config(ctx, model, cfg, rng, views=False, stream="shortcut")
     # 4. leaf models ------------------------------------------------------------------------------------------------
     leaf_models(ctx, model, rng)
+    spectral_models(ctx, model, rng)
     # 5. random derivation trees against the Lean model -------------------------------------------------------------
     ntrees = ctx.n(45, 90)
     maxd = ctx.n(3, 5)
@@ -860,6 +861,63 @@ def leaf_models(ctx, model, rng):
 
 
 
+def spectral_models(ctx, model, rng):
+    """CircularConvolve AS CODED (transform domain): `Op.spectral` (+ real-part wrappers) built from the object's own
+    `h_dft` must reproduce eval and adj - integer and fractional `h_center`, `h_is_dft=True`, filters shorter/longer than
+    the signal, real/complex filter and signal (theorems C01_circ_dft_domain, C01_dft_pair, C01_circ_real_wrappers)"""
+    import jax.numpy as jnp
+    from scico import linop
+
+    for t in range(ctx.n(14, 90)):
+        n = int(rng.integers(1, 7))
+        hdt = [G.R64, G.C128][int(rng.integers(2))]
+        idt = hdt if rng.random() < 0.6 else [G.R64, G.C128][int(rng.integers(2))]
+        mode = ["plain", "center-int", "center-frac", "is-dft"][int(rng.integers(4))]
+        kw = {}
+        if mode == "is-dft":
+            h = G.dy(rng, (n,), True)
+            kw["h_is_dft"] = True
+            harr = jnp.asarray(h, dtype=np.complex128)
+        else:
+            L = int(rng.integers(1, n + 2))
+            h = G.dy(rng, (L,), G.cplx(hdt))
+            harr = jnp.asarray(h, dtype=hdt)
+            if mode == "center-int":
+                kw["h_center"] = int(rng.integers(0, L))
+            elif mode == "center-frac":
+                kw["h_center"] = float([0.5, 1.25, -0.75, 2.5][int(rng.integers(4))])
+        with warnings.catch_warnings():
+            warnings.simplefilter("ignore")
+            A = linop.CircularConvolve(harr, (n,), ndims=1, input_dtype=idt, jit=False, **kw)
+            res = D.check_operator(A, rng)
+            hd = np.asarray(A.h_dft, dtype=np.complex128).reshape(-1)
+        cin, cout = D.is_complex(A.input_dtype), D.is_complex(A.output_dtype)
+        wrap = "none" if cin else ("rc" if cout else "rr")
+        cfgd = {"cls": "CircularConvolve", "n": n, "mode": mode, "h": D._js(np.asarray(h).ravel()), "hdt": hdt, "idt": idt, "kw": {k: v for k, v in kw.items()}}
+        ctx.case({"stream": "leaf-model", "leaf": "spectral", "n": n, "mode": mode, "wrap": wrap}, ("spectral", json.dumps(cfgd, sort_keys=True)))
+        ctx.count(f"leaf-model:spectral:{mode}:{wrap}")
+        if res.get("RA") is None or not res["ok"]:
+            ctx.disagree("adjoint.leaf_spectral", {"spectral": cfgd}, _js(res["fails"]), "adjoint pair", oracle=spectral_oracle)
+            continue
+        leaf = {"t": "spec", "n": n, "Dr": fs2b(hd.real), "Di": fs2b(hd.imag), "wrap": wrap}
+        diff = compare_model(model, [leaf], {"k": "leaf", "i": 0}, res, cin, cout)
+        if diff is not None:
+            ctx.disagree("adjoint.leaf_spectral", {"spectral": cfgd}, "CircularConvolve dense matrices", diff, oracle=spectral_oracle)
+
+
+def spectral_oracle(case):
+    import jax.numpy as jnp
+    from scico import linop
+
+    c = case["spectral"]
+    h = np.array([complex(*z) if isinstance(z, list) else z for z in c["h"]])
+    dt = np.complex128 if c["mode"] == "is-dft" else c["hdt"]
+    with warnings.catch_warnings():
+        warnings.simplefilter("ignore")
+        A = linop.CircularConvolve(jnp.asarray(h, dtype=dt), (c["n"],), ndims=1, input_dtype=c["idt"], jit=False, **c["kw"])
+        return D.identity_on_random(A, np.random.Generator(np.random.PCG64(77)), k=6)
+
+
 # ----------------------------------------------------------------------------------------------------------
 # dtype / shape layer (Model/AdjointTy.lean, theorem C01_adj_total)
 
@@ -1049,6 +1107,8 @@ def replay(ctx, model, case):
     c = case.get("case", case)
     if c.get("types"):
         r = Y.total_oracle(c)
+    elif "spectral" in c:
+        r = spectral_oracle(c)
     elif c.get("view") == "rmatmul":
         r = rmatmul_oracle(c)
     elif "view" in c:
